@@ -221,6 +221,24 @@ MUTANTS = [
     ("c08-wire-name-mangled", "C08", P_DN,
      R("            f'[DataMember(Name = \"{prop_def.name}\")]',", "            f'[DataMember(Name = \"{name}\")]',"),
      "verbatim-wire-data", "DataMember uses the C# property name"),
+    ("c08-uinteger-as-int", "C08", P_DN,
+     R('    elif lsp_type.name in ["integer"]:\n        return "int"\n    elif lsp_type.name in ["uinteger"]:\n        return "long"',
+       '    elif lsp_type.name in ["integer", "uinteger"]:\n        return "int"'),
+     "member-type-mapped", "uinteger members become int"),
+    ("c08-open-int-enum-as-string", "C08", P_DN,
+     R('            if _is_str_enum(enum_def):\n                name = "string"\n            elif _is_int_enum(enum_def):\n                name = "int"',
+       '            name = "string"'),
+     "member-type-mapped", "open integer enumerations are typed string"),
+    ("c08-or-keeps-null", "C08", P_DN,
+     R('    elif type_def.kind == "or":\n        subset = filter_null_base_type(type_def.items)\n        if len(subset) == 1:\n            name = get_type_name',
+       '    elif type_def.kind == "or":\n        subset = list(type_def.items)\n        if len(subset) == 1:\n            name = get_type_name'),
+     "member-type-mapped", "T|null becomes OrType<T, object>"),
+    ("c18-schema-root-vacuous", "C18", P_MAIN,
+     R('    schema.setdefault("$ref", "#/definitions/MetaModel")\n', ''),
+     "gate-schema-constrains-document", "the original defect D15: the schema file has no root reference"),
+    ("c18-schema-root-wrong-def", "C18", P_MAIN,
+     R('schema.setdefault("$ref", "#/definitions/MetaModel")', 'schema.setdefault("$ref", "#/definitions/MetaData")'),
+     "gate-schema-constrains-document", "documents are validated against the wrong definition"),
     ("c06-kind-missing", "C06", P_TD,
      R('    elif type_def.kind == "map":\n        yield from generate_for_map(type_def.key, type_def.value, spec, visited)\n', ""),
      "kind-exhaustive", "testdata generator silently yields nothing for map types"),
